@@ -1,16 +1,17 @@
 SPECIFICATION Spec
 CONSTANT Deviations = {}
 CONSTANT Family = "subst"
-CONSTANT W1 = 2
+CONSTANT W1 = 1
 CONSTANT W2 = 1
 CONSTANT W3 = 1
-CONSTANT FilterLevel = 1
+CONSTANT FilterLevel = 2
 CONSTANT BodyLevel = 1
 INVARIANT Refines
 INVARIANT ErrorsExact
 INVARIANT OthersUntouched
 INVARIANT KeepSetExact
 INVARIANT KeepOrder
+INVARIANT ReachAgree
 INVARIANT MapWellFormed
 INVARIANT MapNames
 INVARIANT FullyExpanded
